@@ -899,6 +899,10 @@ async fn input_processing(
             masked_inputs[inst.out] = Some(masked_input)
         }
     }
+    #[cfg(feature = "__verif")]
+    for (w, m) in masked_inputs.iter_mut().enumerate() {
+        *m = crate::verif::tap_opt_bool("masked_input_announce", w, *m);
+    }
     let masked_inputs_from_other_party =
         broadcast(channel, p_own, p_max, "masked inputs", &masked_inputs).await?;
     for p in (0..p_max).filter(|p| *p != p_own) {
@@ -914,6 +918,10 @@ async fn input_processing(
                 *masked_input = Some(*mask_other);
             }
         }
+    }
+    #[cfg(feature = "__verif")]
+    for (w, m) in masked_inputs.iter_mut().enumerate() {
+        *m = crate::verif::tap_opt_bool("masked_input_merged", w, *m);
     }
     let other_input_labels = Mutex::new(vec![None; circ.max_reg_count]);
     if is_contrib {
